@@ -31,7 +31,7 @@ ASSUMPTIONS = [
     'the exception is recorded as a diagnostic only',
     'stateful helpers (buffer, when, updating) are outside the statement and not generated',
 ]
-REQUIRED = {'late_built_nodes': 300, 'reads': 5000, 'reads_after_update': 2000, 'reads_raising': 200, 'watch_checks': 500, 'operator_forms': 60, 'break_and_repair_plans': 100, 'reads_interrupted': 40, 'reads_with_two_distinct_argument_faults': 40}
+REQUIRED = {'record_attribute_expressions': 50, 'inputs_corrected_by_watch_callbacks': 30, 'late_built_nodes': 300, 'reads': 5000, 'reads_after_update': 2000, 'reads_raising': 200, 'watch_checks': 500, 'operator_forms': 60, 'break_and_repair_plans': 100, 'reads_interrupted': 40, 'reads_with_two_distinct_argument_faults': 40}
 
 _st = {}
 
@@ -73,6 +73,21 @@ BIN = [('add', operator.add), ('sub', operator.sub), ('mul', operator.mul), ('tr
        ('divmod', divmod)]
 UN = [('neg', operator.neg), ('pos', operator.pos), ('abs', abs), ('invert', operator.inv), ('round', round),
       ('floor', math.floor), ('ceil', math.ceil), ('trunc', math.trunc)]
+
+
+class Rec:
+    """A record: objects of one class that need not have the same attributes."""
+
+    def __init__(self, **fields):
+        self.__dict__.update(fields)
+
+    def __eq__(self, other):
+        return type(other) is Rec and other.__dict__ == self.__dict__
+
+    __hash__ = None
+
+    def __repr__(self):
+        return 'Rec(%s)' % ', '.join(f'{k}={v!r}' for k, v in self.__dict__.items())
 
 
 class Node:
@@ -150,6 +165,17 @@ def build(rng, P, rep, table_mode=False):
         sroot.rx.value = v
     inputs['D'] = (set_d, 'dict')
     inputs['S'] = (set_s, 'set')
+    # records: objects of ONE class that do not all have the same attributes
+    recval = [Rec(size=5, b=1), Rec(color='blue')]
+    recroots = [rx(recval[0]), rx(recval[1])]
+
+    def set_rec(i):
+        def f(v):
+            recval[i] = v
+            recroots[i].rx.value = v
+        return f
+    inputs['R0'] = (set_rec(0), 'rec')
+    inputs['R1'] = (set_rec(1), 'rec')
     nodes = [Node(roots[0], lambda: rootvals[0], 'r0', 'num', 'root', ins=['r0']),
              Node(roots[1], lambda: rootvals[1], 'r1', 'num', 'root', ins=['r1']),
              Node(src.param.a.rx(), lambda: src.a, 'pa', 'num', 'param', ins=['a']),
@@ -170,6 +196,8 @@ def build(rng, P, rep, table_mode=False):
     dnode = Node(droot, lambda: dval[0], 'D', 'dict', 'root', ins=['D'])
     snode = Node(sroot, lambda: sval[0], 'S', 'set', 'root', ins=['S'])
     nodes += [dnode, snode]
+    recnodes = [Node(recroots[i], (lambda i=i: recval[i]), f'R{i}', 'rec', 'root', ins=[f'R{i}']) for i in range(2)]
+    nodes += recnodes
     dropped = [0]
     leaf_only = []
 
@@ -210,8 +238,30 @@ def build(rng, P, rep, table_mode=False):
         else:
             add(lambda: op(x.rx, const), lambda: op(x.ev(), const), f'({x.desc} {name} {const!r})', 'any', f'bin:{name}:rx-const:{typ}', (x,))
 
+    def grow_record_attribute():
+        i = rng.randrange(2)
+        x = recnodes[i]
+        attr = rng.choice(['size', 'color', 'b', 'size'])
+        try:
+            getattr(x.ev(), attr)
+        except AttributeError:
+            return          # the current value has no such attribute: plain Python cannot write this expression either
+        try:
+            r = getattr(x.rx, attr)
+        except AttributeError as e:
+            rep.violation('C09/attribute-of-current-value-not-offered', f'{x.desc} currently holds {x.ev()!r}, yet building {x.desc}.{attr} raised '
+                          f'AttributeError: {e}', case=dict(expr=f'{x.desc}.{attr}'))
+            return
+        rep.count('record_attribute_expressions')
+        n = Node(r, lambda: getattr(x.ev(), attr), f'{x.desc}.{attr}', 'any', 'attr:record', (x,))
+        nodes.append(n)
+        if rng.random() < 0.5:
+            add(lambda: rx(bind(lambda v: [v], n.rx)), lambda: [n.ev()], f'bind(list,{n.desc})', 'list', 'bind:record-attr', (n,))
+
     def grow():
         k = rng.random()
+        if not table_mode and rng.random() < 0.07:
+            return grow_record_attribute()
         if k < 0.3:
             name, op = rng.choice(BIN)
             x, y = rng.choice(of('num')), rng.choice(of('num'))
@@ -421,6 +471,7 @@ def build(rng, P, rep, table_mode=False):
     return nodes + leaf_only, inputs, dropped[0], grow_late
 
 
+RECV = [Rec(size=5, b=1), Rec(size=7), Rec(color='blue', size=1), Rec(color='red'), Rec(), Rec(size='x', b=2), None]
 DICTV = [{'size': 5, 'b': 1}, {}, {'color': 'blue'}, {'size': 7}, collections.OrderedDict([('size', 3), ('b', 2)]), None]
 SETV = [{1, 2}, set(), {2, 3, 4}, frozenset({1}), {3}]
 NUMV = [0, 1, 2, 3, -2, 5, 2.5, 7, 'x', None, [1, 2]]
@@ -456,6 +507,31 @@ def run_case(idx, rng, P, rep):
             if depth < 12:
                 kinds_below(c, acc, depth + 1)
         return acc
+
+    # ---- a watch callback that corrects an input it does not like (clamps it) while it is being told about the change: the
+    #      expressions then show what plain Python computes from the corrected input, and the callback gets to hear of it
+    if not table_mode and rng.random() < 0.5:
+        late = nodes[8:]
+        cands = [n for n in late if n.ins & {'r0', 'r1'} and ({n.kind} | kinds_below(n)) & {'where:rx-branches', 'where:mixed'}] or \
+                [n for n in late if n.ins & {'r0', 'r1'}]
+        if cands:
+            cn = rng.choice(cands)
+            cname = rng.choice(sorted(cn.ins & {'r0', 'r1'}))
+            ccalls = []
+
+            def correct(v, i=int(cname[1]), cname=cname):
+                ccalls.append(v)
+                cur = nodes[i].ev()            # (nodes[0] and nodes[1] are the roots r0 and r1)
+                if isinstance(cur, (int, float)) and not isinstance(cur, bool) and cur > 4:
+                    hist.append(('corrected-by-watch-callback', cname))
+                    rep.count('inputs_corrected_by_watch_callbacks')
+                    inputs[cname][0](1)
+            try:
+                cn.rx.rx.watch(correct)
+                watched.append((cn, ccalls))
+                rep.count('correcting_watch_callbacks')
+            except Exception:   # noqa: BLE001
+                pass
 
     dirty = set()      # inputs whose most recent update raised out of the setter (remaining eager watchers did not run)
 
@@ -508,7 +584,7 @@ def run_case(idx, rng, P, rep):
     if table_mode:
         for n in nodes:
             read(n)
-    POOLS = {'num': NUMV, 'str': STRV, 'list': LISTV, 'dict': DICTV, 'set': SETV}
+    POOLS = {'num': NUMV, 'str': STRV, 'list': LISTV, 'dict': DICTV, 'set': SETV, 'rec': RECV}
     plan = []        # forced (input, value) updates / reads: break one input of an expression, read, repair it, read again
     for step in range(steps):
         if not plan and not table_mode and rng.random() < 0.08:
